@@ -1,5 +1,6 @@
 """C03 - every outbound payment reaches a truthful terminal outcome (structural part)."""
 from engine import *
+import linforms
 import obligations
 import ordimpls
 import provenance
@@ -432,3 +433,4 @@ def r03j9(F):
 	return out
 RULES.append(('03.J', 'an outbound payment whose failure / finalized fulfil is held while a monitor update is in flight keeps it when a second update pauses the channel again (09.j under C03)', r03j9))
 RULES.append(('03.N', 'arithmetic census: per reviewed function the set of operation kinds (group: add/sub, mul, div, rem, shift, bit, min, max, div_ceil ...; flavour: plain / checked / saturating / wrapping) keeps its kinds: no reviewed function lost or gained a kind of arithmetic altogether - a rounding direction (`/` for div_ceil), saturating for checked, min for max (rules/arith.py; counts and value arithmetic itself are not judged)', lambda F: arith.for_property(F, 'C03', '03.N')))
+RULES.append(('03.K', 'constant census of linear forms: every comparison (normalised to sum >= K over name-free atoms, a comparison and its negation being one form) and every maximal arithmetic expression of a reviewed function keeps its coefficients and its constant - a dropped or added `+ 1` / `- 1`, `<` for `<=` inside a computed bound, a scale factor applied twice or not at all, swapped operands of a comparison (rules/linforms.py; shapes that appear or disappear are not judged, the guard / arithmetic censuses judge those)', lambda F: linforms.for_property(F, 'C03', '03.K')))
